@@ -72,9 +72,9 @@ def rand_object(rng, ctx, arch, depth=0, nmax=12):
             items.append((k, ('a', arr)))
         else:
             items.append((k, rand_scalar(rng, ctx, arch)))
-    if arch == 'msgpack' and depth == 0 and rng.random() < 0.3:
+    if arch == 'msgpack' and depth == 0 and rng.random() < 0.5:
         for _ in range(rng.randrange(1, 4)):
-            ik = S.rand_int(rng, -(1 << 63), (1 << 63) - 1)
+            ik = S.rand_int(rng, -(1 << 63), (1 << 63) - 1) if rng.random() < 0.5 else rng.choice([0, 1, 2, 7, 100, 127, 128, 255, 256, 1000, 40000, 65535, 70000, -1, -100, -128])
             if all(k != ('ki', ik) for k, _ in items):
                 items.insert(rng.randrange(len(items) + 1), (('ki', ik), rand_scalar(rng, ctx, arch)))
     return ('o', items)
@@ -132,18 +132,21 @@ def gen_program(rng, obj, arch, depth=0):
             typ = rng.choice(list(SENT))
             ops.append('G:%s:%s' % (k.encode().hex(), typ))
             exp.append({'ok': False, 'v': SENT[typ], 'nullable': typ in NULLABLE})
-        elif r < 0.16 and arch == 'msgpack':
-            ik = int_keys and rng.random() < 0.7 and rng.choice(int_keys)[1] or S.rand_int(rng, -1000, 1000)
+        elif r < 0.22 and arch == 'msgpack':
+            ik = rng.choice(int_keys)[1] if (int_keys and rng.random() < 0.8) else S.rand_int(rng, -1000, 1000)
             v = by_key.get(('ki', ik))
+            # the same integer key may be addressed through any C++ integer type that can hold it
+            kops = ['Gi'] + (['Gu'] if ik >= 0 else []) + (['Gh'] if 0 <= ik < 65536 else []) + (['Gw'] if 0 <= ik < 2 ** 32 else []) + (['Gb'] if -128 <= ik < 128 else [])
+            kop = rng.choice(kops)
             if v is not None and v[0] in ('i', 'f', 'b', 's'):
                 typ = type_for(v, rng)
-                ops.append('Gi:%d:%s' % (ik, typ))
+                ops.append('%s:%d:%s' % (kop, ik, typ))
                 exp.append({'ok': True, 'v': desc_of(v, typ)})
             elif v is None:
                 typ = rng.choice(['i64', 'str', 'f64'])
-                ops.append('Gi:%d:%s' % (ik, typ))
+                ops.append('%s:%d:%s' % (kop, ik, typ))
                 exp.append({'ok': False, 'v': SENT[typ]})
-        elif r < 0.2 and arch != 'csv' or (r < 0.2 and arch == 'csv'):
+        elif r < 0.3:
             ops.append('V')
             keys = []
             for k, _ in items:
@@ -309,6 +312,7 @@ def run(tier):
             elif len(ck.samples) < 6 and rng.random() < 0.005:
                 ck.sample({'arch': arch, 'program': ';'.join(ops)[:300], 'document': doc_preview(arch, meta[cid]), 'source': src})
     ck.cov['program_op_kinds'] = kinds_seen
+    int_key_cases(ck, rng, 3000 if q else 200000)
     return ck.finish(min_nontrivial=1000)
 
 
@@ -322,3 +326,58 @@ def replay(w):
     ev, err, rc, bad = core.run_driver(exe, [wit['case']], wit.get('variant', 'asan'))
     print(ev, err[-2000:])
     return 0
+
+
+def int_key_cases(ck, rng, n, prefix='intkey'):
+    """MessagePack maps with integer keys in every legal width / family, members addressed through int64_t, uint64_t, uint32_t, uint16_t and
+    int8_t key types (shared by C03 and C07): every present key must be found whatever format carries it."""
+    from oracles import msgpack_ref as M
+    exe = build_req('asan')
+    lines, meta = [], {}
+    for i in range(n):
+        nk = rng.randrange(1, 6)
+        keys = []
+        while len(keys) < nk:
+            ik = rng.choice([0, 1, 2, 7, 31, 32, 100, 127, 128, 200, 255, 256, 1000, 32767, 32768, 40000, 65535, 65536, 2 ** 31 - 1, 2 ** 31, 2 ** 32 - 1, 2 ** 32, 2 ** 63 - 1, -1, -32, -33, -100, -128, -129, -32768, -2 ** 31, -2 ** 63,
+                             S.rand_int(rng, -(1 << 63), (1 << 63) - 1)])
+            if ik not in keys:
+                keys.append(ik)
+        vals = [S.rand_int(rng, -2 ** 31, 2 ** 31 - 1) for _ in keys]
+        # every key in a random legal integer format
+        def enc_key(k):
+            fmts = M.int_formats(k)
+            return M._enc_int(k, rng.choice(fmts))
+        body = bytes([0x80 | nk]) + b''.join(enc_key(k) + M.encode({'t': 'int', 'v': v}) for k, v in zip(keys, vals))
+        doc = b'\x93' + body + M.encode({'t': 'int', 'v': 424242}) + M.encode({'t': 'str', 'v': b'tail'})
+        ops, exp = [], []
+        order = list(range(nk))
+        rng.shuffle(order)
+        for j in order + [rng.randrange(nk)]:
+            ik = keys[j]
+            kops = ['Gi'] + (['Gu'] if ik >= 0 else []) + (['Gh'] if 0 <= ik < 65536 else []) + (['Gw'] if 0 <= ik < 2 ** 32 else []) + (['Gb'] if -128 <= ik < 128 else [])
+            ops.append('%s:%d:i32' % (rng.choice(kops), ik))
+            exp.append({'ok': True, 'v': vals[j]})
+        cid = '%s%d' % (prefix, i)
+        src = rng.choice(['mem', 'sstream', 'slow'])
+        line = 'op=run id=%s arch=msgpack doc=%s prog=%s src=%s step=3' % (cid, doc.hex(), ';'.join(ops), src)
+        lines.append(line)
+        meta[cid] = (exp, line)
+    by, crashes = core.run_cases(exe, lines, 'asan')
+    for ln, key, err, rc in crashes:
+        ck.violation('crash/%s' % key, {'driver': 'drv_req', 'variant': 'asan', 'case': ln[:400000], 'stderr': err[-1500:]}, 'process died: ' + key)
+    for cid, e in by.items():
+        exp, line = meta[cid]
+        if 'error' in e:
+            ck.harness_error(e['error'])
+            continue
+        ck.case(('intkey', line[-300:]), nontrivial=True)
+        wit = {'driver': 'drv_req', 'variant': 'asan', 'case': line, 'event': {kk: str(vv)[:2000] for kk, vv in e.items()}, 'expected_log': json.dumps(exp)}
+        if e['res']['out'] != 'ok':
+            ck.violation('msgpack/integer-key/exception:%s' % e['res'].get('code'), wit, 'map with integer keys raised %s' % e['res'].get('what'))
+            continue
+        why = compare(exp, e['log'])
+        if why:
+            ck.violation('msgpack/integer-key/not-found-or-wrong-value', wit, 'member under an integer key: ' + why)
+        elif e['tail'] != [424242, b'tail'.hex()]:
+            ck.violation('msgpack/integer-key/tail', wit, 'data after the map misread')
+    ck.cov['integer_key_cases'] = ck.cov.get('integer_key_cases', 0) + len(by)
